@@ -5,6 +5,12 @@ CHECKS = {
  "C11": dict(cat="exploration", tech="proptest stateful histories vs list/set reference model of views",
    text="Random mutation/read histories through every view adapter on 15 store types against a reference model; finds any input-dependent incoherence within the generated alphabet, never proves absence.",
    note="Trusted: harness model of matcher semantics (written from the docs), MT<->SimpleTerm conversion. Flags only checked for set stores.", ref="5/C11"),
+ "C13": dict(cat="exploration", tech="proptest grammar-generated SPARQL queries + datasets vs naive reference evaluator over the spargebra algebra (differential)",
+   text="Query text generated from a grammar over the supported and unsupported operators, evaluated by sophia_sparql on five store types and by an independent brute-force evaluator of the SPARQL algebra; compares solution multisets / ASK, demands NotImplemented for unsupported algebra nodes, no panic. Exploration only: expression semantics judged on a crisp subset.",
+   note="Trusted: spargebra's parse of the query text into algebra (shared with sophia), the harness evaluator (c13.rs) and its exact decimal arithmetic. Cases touching non-crisp expression semantics are skipped and counted.", ref="5/C13, 11"),
+ "C14": dict(cat="exploration", tech="proptest value multisets x key lists x input permutations vs exact-arithmetic reference order relation (validity predicate + cross-permutation preorder check)",
+   text="Multisets of solution values over every term kind / numeric type / ill-typed literal, 1-3 ASC/DESC keys, each loaded in 3 input permutations; output must be a permutation and no pair may contradict the reference relation (kind order, exact SPARQL '<'); cross-permutation cycle check for preorder consistency.",
+   note="Trusted: harness reference relation (exact decimal expansion of doubles, XSD dateTime order). Pairs that '<' cannot compare are unconstrained.", ref="5/C14, 11"),
 }
 NOT_APPLICABLE = []
 def main():
